@@ -3,6 +3,8 @@
 // constraints, M4 point meet, M5 entailment probes.
 #pragma once
 #include "interp.hpp"
+#include "../core/hooks.hpp"
+#include "../core/report.hpp"
 #include <crab/domains/interval.hpp>
 
 namespace vp {
@@ -41,7 +43,7 @@ std::string member(const State &s, const Dom &A, const MemberOpts &mo = MemberOp
       if (def && !h)
         return "M3 exported constraint " + to_str(c) + " is false";
     }
-    if (mo.disjunctive) {
+    if (mo.disjunctive) try {
       auto dcsts = A.to_disjunctive_linear_constraint_system();
       if (dcsts.is_false())
         return "M3 disjunctive system is false";
@@ -65,6 +67,10 @@ std::string member(const State &s, const Dom &A, const MemberOpts &mo = MemberOp
         if (!some)
           return "M3 no disjunct of " + to_str(dcsts) + " holds";
       }
+    } catch (const verif::crab_error &) {
+      // several domains raise CRAB_ERROR from this export ("cannot add true",
+      // "not implemented"): no answer was given, so nothing to judge
+      verif::R().diag("disjunctive_export_raised_crab_error");
     }
   }
   if (mo.m5) {
